@@ -1443,6 +1443,17 @@ func boundsAnalyse(fn *ssa.Function, fset *token.FileSet) []bSite {
 					for at := range f.l.c {
 						if _, has := g.c[at]; has {
 							rel = true
+							break
+						}
+					}
+				}
+				// the guards recorded for a review are the branch conditions in force (not loop
+				// invariants, which come and go with unrelated loops)
+				for _, f := range a.branchFacts(ins.Block()) {
+					for at, co := range f.l.c {
+						gc, has := g.c[at]
+						// a guard helps when it bounds a shared quantity in the direction the goal needs
+						if has && (f.neq || (co > 0) == (gc > 0)) {
 							relSet[normFact(f)] = true
 							break
 						}
@@ -1765,4 +1776,19 @@ func normFact(f cons) string {
 		op = "!=0"
 	}
 	return strings.Join(parts, "+") + fmt.Sprintf("%+d", f.l.k) + op
+}
+
+// branchFacts: the facts in force at b that come from branch conditions on the dominator chain
+// (blockFacts without the loop invariants and the parameter preconditions).
+func (a *fnAn) branchFacts(b *ssa.BasicBlock) []cons {
+	var out []cons
+	for x := b; x != nil; x = x.Idom() {
+		if len(x.Preds) == 1 {
+			p := x.Preds[0]
+			if iff, ok := p.Instrs[len(p.Instrs)-1].(*ssa.If); ok && p.Succs[0] != p.Succs[1] {
+				out = append(out, a.condFacts(iff.Cond, p.Succs[0] == x)...)
+			}
+		}
+	}
+	return out
 }
